@@ -187,7 +187,11 @@ type ErrCase struct {
 }
 
 func (c *ErrCase) ID() string {
-	return fmt.Sprintf("%s main=%q prefix=%q", c.Kind, c.Files["/main"], string(c.Prefix))
+	id := fmt.Sprintf("%s main=%q prefix=%q", c.Kind, c.Files["/main"], string(c.Prefix))
+	if sub, ok := c.Files["/sub"]; ok {
+		id += fmt.Sprintf(" sub=%q", sub)
+	}
+	return id
 }
 
 func errCtx() pongo2.Context {
@@ -263,6 +267,15 @@ func (c *ErrCase) Exec(t *eng.T) {
 	off, ok := offsetOf(src, e.Line, e.Column)
 	if !ok {
 		t.Fail("error:position-outside-source:"+sender, "%s: %s error in %s at line %d col %d lies outside that source (%s)", c.ID(), ob.kind, e.Filename, e.Line, e.Column, ob.msg)
+		return
+	}
+	if e.Token != nil && e.Token.Filename != "" && e.Token.Filename != e.Filename {
+		// the token belongs to another template than the one the error names
+		cls := "own-position"
+		if e.Token.Line == e.Line && e.Token.Col == e.Column {
+			cls = "position-of-referrer"
+		}
+		t.Fail("error:token-from-other-file:"+cls, "%s: %s error names %s at line %d col %d but carries the token %q of %s (%s)", c.ID(), ob.kind, e.Filename, e.Line, e.Column, e.Token.Val, e.Token.Filename, ob.msg)
 		return
 	}
 	if e.Token != nil {
